@@ -662,10 +662,10 @@ example : ((runFEP [(0, 100), (1, 101)] [(5, fun g => g == 100), (9, fun g => g 
     transaction every failing statement leaves the function with the error (the only locally handled error is the
     rollback's own), and the transaction is rolled back unless the commit succeeded — `poll!` = `poll` rests on this -/
 theorem C16_code_facts :
-    Gen.SyncFacts.errHandledLocally_gerProcessor = ["ProcessBlock#2"] ∧
-    Gen.SyncFacts.rollbackGuard_ger = "shouldRollback" ∧
-    Gen.SyncFacts.rollbackFlagFlow_ger = ["shouldRollback := true", "Commit", "shouldRollback = false"] ∧
+    Gen.SyncFacts.errHandledLocally_gerProcessor = ["ProcessBlock:tx.Rollback"] ∧
+    Gen.SyncFacts.rollbackGuard_ger = "FLAG" ∧
+    Gen.SyncFacts.rollbackFlagFlow_ger = ["FLAG := true", "Commit", "FLAG = false"] ∧
     -- `Reorg` (and every other writer) reports its failures: the only error turned into success is "no block yet"
-    Gen.SyncFacts.errToNil_gerProcessor = ["GetLastProcessedBlock#2"] := by decide
+    Gen.SyncFacts.errToNil_gerProcessor = ["GetLastProcessedBlock:?"] := by decide
 
 end Aggkit.LastGER
